@@ -146,6 +146,8 @@ func (r *Router) handleHTTPRequest(ctx *Context) {
 			if ret := recover(); ret != nil {
 				ctx.Set(CTXRecoverResult, ret)
 				r.OnPanic(ctx)
+				// commit the status code set by the panic handler
+				ctx.writer.ensureWriteHeader()
 			}
 		}()
 	}
